@@ -32,6 +32,9 @@ def cells(tier):
     out = make_cells(PID, 'exc', tier)
     for pat in ([0], [1], [0, 2], [0, 1, 2]):
         out += make_cells(PID, 'exc', tier, thin=plain, extra={'untimed': pat}, suffix='untimed-' + ''.join(map(str, pat)))
+    # stories that carry only some of the timing tags (TextTime alone, MediaTime alone, an empty payload)
+    for pat in (['TT', 'SD', 'MT'], ['MT', 'TT+MT', 'none'], ['empty', 'TT', 'SD']):
+        out += make_cells(PID, 'exc', tier, thin=plain, extra={'timing_pat': pat}, suffix='timing-' + ','.join(pat))
     out += make_cells(PID, 'exc', tier, thin=some, extra={'blank_first': True}, suffix='blank-id-first')
     out += make_cells(PID, 'exc', tier, thin=plain, extra={'blank_first': True, 'untimed': [1]}, suffix='blank-id-first+untimed-1')
     # classification: a roElementAction of any operation / shape, and an element of any name, never escape as
